@@ -230,10 +230,21 @@ def crate_text(crate):
             if f.endswith('.rs') and f != 'tests.rs':
                 p = os.path.join(dp, f)
                 raw = open(p, encoding='utf-8').read()
-                # drop #[cfg(test)] modules
-                m = re.search(r'#\[cfg\(test\)\]\s*mod\s+\w+\s*\{', raw)
-                if m:
-                    raw = raw[:m.start()]
+                # drop #[cfg(test)] / #[cfg(kani)] modules (tests and verification harnesses)
+                while True:
+                    m = re.search(r'#\[cfg\((?:test|kani)\)\]\s*mod\s+\w+\s*\{', raw)
+                    if not m:
+                        break
+                    d, j = 0, m.end() - 1
+                    while j < len(raw):
+                        if raw[j] == '{':
+                            d += 1
+                        elif raw[j] == '}':
+                            d -= 1
+                            if d == 0:
+                                break
+                        j += 1
+                    raw = raw[:m.start()] + raw[j + 1:]
                 out.append((os.path.relpath(p, REPO), raw))
     return out
 
